@@ -36,8 +36,8 @@ func (c cfg) String() string {
 
 func scenario(c cfg) *mcx.Scenario {
 	return &mcx.Scenario{
-		Name:   c.String(),
-		Bounds: mcx.Bounds{Preempt: c.Preempt, Env: -1, Select: 0},
+		Name:        c.String(),
+		Bounds:      mcx.Bounds{Preempt: c.Preempt, Env: -1, Select: 0},
 		DeadlockSig: "blocked-forever/" + c.Op + "/" + c.Intr,
 		Body: func(s *vrt.Sched) func() (string, []mcx.Finding) {
 			var fs []mcx.Finding
